@@ -15,6 +15,7 @@ struct SlotModel {
 	bool issued = false;
 	uint32_t seed = 0;
 	Addr bound;                 // address the challenge was sent to / rebinding by raw login
+	std::vector<Addr> bound_hist; // addresses bound earlier in this login generation: a query held from then may still be answered there
 	bool logged_in = false, raw_ok = false;
 	// liveness is bracketed from the wire: t_lo = latest message that surely counted as activity (it was answered as an
 	// accepted, non-repeated request), t_hi = latest message that could possibly have counted. The code's own clock
@@ -153,7 +154,7 @@ struct SessionsModel : Monitor {
 		if (d.dst.fam == AF_INET && d.dst.a[0] == 127) return;
 		if (is_rawf(d.data)) {
 			int cmd = d.data[3] >> 4, uid = d.data[3] & 15;
-			if (cmd == 1) { if (!(step.n == 1 && step.valid_rawlogin)) require_auth("raw_login_reply"); else { SlotModel &sm = slot[uid]; sm.raw_ok = true; sm.bound = step.d.src; sm.t_lo = sm.t_hi = w->S.now; w->probes["c03.rawlogin_ok"]++; } }
+			if (cmd == 1) { if (!(step.n == 1 && step.valid_rawlogin)) require_auth("raw_login_reply"); else { SlotModel &sm = slot[uid]; sm.raw_ok = true; if (!same_ip(sm.bound, step.d.src)) sm.bound_hist.push_back(sm.bound); sm.bound = step.d.src; sm.t_lo = sm.t_hi = w->S.now; w->probes["c03.rawlogin_ok"]++; } }
 			else if (cmd == 3 && step.n == 1 && step.raw && step.authorised) { slot[uid].t_lo = w->S.now; }
 			else if (cmd == 3) { if (step.n == 1 && step.raw) require_auth("raw_ping_reply"); }
 			else if (cmd == 2) {
@@ -222,6 +223,7 @@ struct SessionsModel : Monitor {
 			// (the answer may be for an earlier held query of the same session: attribute by the question's uid)
 			auto it = slot.find(u.userid);
 			bool ok = it != slot.end() && it->second.logged_in && (no_check_ip || same_ip(d.dst, it->second.bound));
+			if (!ok && it != slot.end() && it->second.logged_in) for (auto &a : it->second.bound_hist) if (same_ip(d.dst, a)) ok = true;
 			if (!ok) {
 				char b[240]; snprintf(b, sizeof b, "tunnel answer for uid %d sent to %s which is not an authorised session (bound %s)", u.userid, d.dst.str().c_str(), it != slot.end() ? it->second.bound.str().c_str() : "-");
 				w->S.violate("C03", "effect.data_answer", b);
@@ -441,6 +443,22 @@ J gen_sessions(uint64_t seed, const J &ov)
 		op.set("ser", (long long)++ser); op.set("len", (int)r.range(40, 300)); op.set("body", "rnd");
 		op.set("dst", r.chance(0.6) ? "srv" : r.chance(0.5) ? "ext" : "m" + std::to_string(r.range(0, nm - 1)));
 		ops.push(op);
+	}
+	// a legitimate client that mixes modes: raw login, raw ping/data, then DNS-mode pings and data again (the server keeps
+	// per-session query state that both paths write)
+	if (r.chance(0.35)) {
+		std::string who = "m" + std::to_string(r.range(0, nm - 1));
+		int k = (int)r.range(3, 14);
+		double t0 = 8 + r.uniform() * (T - 20);
+		static const char *macts[] = {"rawlogin", "rawping", "rawdata", "p", "p", "pkt", "rawping", "rawdata"};
+		for (int i = 0; i < k; i++) {
+			J op = J::obj(); op.set("ref", "abs"); t0 += r.uniform() * 1.5; op.set("t", (long long)(t0 * 1e6)); op.set("op", "mc"); op.set("who", who);
+			std::string act = i == 0 ? "rawlogin" : macts[r.range(0, 7)];
+			op.set("act", act);
+			if (act == "rawlogin") op.set("mode", "good");
+			if (act == "pkt" || act == "rawdata") { op.set("ser", (long long)++ser); op.set("len", (int)r.range(40, 300)); op.set("body", "rnd"); op.set("dst", "srv"); }
+			ops.push(op);
+		}
 	}
 	// adversary: own handshake attempts, commands with own and foreign userids, raw frames
 	static const char *acts[] = {"v", "l", "p", "n", "i", "s", "o", "r", "rawlogin", "rawping", "rawdata", "pkt"};
